@@ -411,6 +411,40 @@ theorem dollar_digit_is_one_positional (skip : Str → Res Str) (inDq : Bool) (c
   unfold dollar
   split <;> simp_all
 
+/-- `render_then_parse` for a normal form `N` of spanned piece lists: the text the check renders for the pieces is read
+back by the parser as exactly those pieces, spans included. The full property wants `N` = every piece list the C04/C05
+generators produce. MISSING from what is proved below (`render_then_parse_partial`): double-quoted sequences and the
+`$` pieces (`$name`, `${…}`, `$(…)`, `$((…))`) and the tilde prefix — for those the agreement of text and pieces rests
+on the exhaustive correspondence run (leg W of `tools/c04.py`) and on concrete examples, not on a theorem. -/
+def render_then_parse_full (N : List SP → Prop) : Prop :=
+  ∀ ps : List SP, N ps → parseWord (renderWord ps) = .ok ps
+
+/-- The restricted normal form: atoms `as` with `NF as` (single-quoted pieces whose body has no `'`; escapes `\c` for
+any `c`; non-empty text runs of `Ordinary` characters = anything but `'` `"` `$` backquote `\` `~`; no two text runs
+adjacent), carrying the spans `position!()` assigns (`spannedFrom`). -/
+def RestrictedNormalForm (ps : List SP) : Prop :=
+  ∃ as : List Atom, NF as ∧ ps = spannedFrom (blen (renderAtoms as)) as
+
+/-- `render_then_parse` on the quote / escape / plain-text fragment, for words of any length: rendering such a piece
+list and parsing the text gives back the same pieces with the same spans. -/
+theorem render_then_parse_partial : render_then_parse_full RestrictedNormalForm := by
+  intro ps ⟨as, hnf, hps⟩
+  rw [hps, renderWord_spannedFrom]
+  exact parseWord_render as hnf
+
+/-- non-vacuity: `a b'x"$'\'é}` = text, single-quoted (holding `"` and `$`), escape, text with a two-byte character -/
+example : RestrictedNormalForm
+    [⟨.atom (.text "a b".toList), 0, 3⟩, ⟨.atom (.sq "x\"$".toList), 3, 8⟩, ⟨.atom (.esc "\\'".toList), 8, 10⟩,
+     ⟨.atom (.text "é}".toList), 10, 13⟩] := by
+  refine ⟨[.text "a b".toList, .sq "x\"$".toList, .esc "\\'".toList, .text "é}".toList], ?_, by decide⟩
+  simp [NF, OkAtom, Ordinary, isTextAtom]
+
+/-- the full property fails for an arbitrary piece list: two adjacent text runs are read back as one -/
+theorem render_then_parse_needs_a_normal_form : ¬ render_then_parse_full (fun _ => True) := by
+  intro h
+  have := h [⟨.atom (.text ['a']), 0, 1⟩, ⟨.atom (.text ['b']), 1, 2⟩] trivial
+  revert this; decide
+
 end WordParser
 
 end BrushVerif.C04
